@@ -83,6 +83,21 @@ class SigEval(object):
         return None
 
     def ret_sig(self, e, env):
+        # list concatenation of operand lists: [a] + other_parser(stream)
+        if isinstance(e, ast.BinOp) and isinstance(e.op, ast.Add):
+            l, r = self.ret_sig(e.left, env), self.ret_sig(e.right, env)
+            if not (isinstance(l, list) and isinstance(r, list)):
+                raise AnalysisError('G-SIG', 'parser', 'concatenation of conditional operand lists not modelled: %s' % ast.unparse(e))
+            return l + r
+        # delegation to another operand parser on the same stream: g(stream) where g is a parser closure
+        if isinstance(e, ast.Call) and len(e.args) == 1 and not e.keywords and isinstance(e.args[0], ast.Name) and e.args[0].id == self.stream:
+            fv = self.interp.eval(e.func, env)
+            if isinstance(fv, FuncV):
+                sub = SigEval(self.world, self.structs_obj)
+                r = sub.sig_of(fv)
+                if not isinstance(r, list):
+                    raise AnalysisError('G-SIG', 'parser', 'delegation to a conditional parser not modelled: %s' % ast.unparse(e))
+                return r
         if not isinstance(e, (ast.List, ast.Tuple)):
             raise AnalysisError('G-SIG', 'parser', 'parser does not return a list display: %s' % ast.unparse(e))
         out = []
